@@ -348,6 +348,7 @@ class World(object):
         asyncio.set_event_loop(self.loop)
         k = self.kernel
         circus.process.Popen = make_popen(k)
+        circus.process.os = ModProxy(os, waitid=k.waitid)
         osp = ModProxy(os, waitpid=k.waitpid, kill=k.kill,
                        getpid=lambda: k.getpid_value)
         self.osproxy = osp
